@@ -118,6 +118,16 @@ def run_steps(goit, steps_or_gen, nsteps, tz="UTC", tz_offset=0, base=None):
                             r.time = sg["time"]
                     except ValueError:
                         pass
+            if st.kind == "cmd" and st.name == "commit" and r.res.cls == "ok" and r.time == 0:
+                # an identical commit made again within the same second creates no new object
+                try:
+                    hb = r.after.head_branch
+                    cid = r.after.branch_ids().get(hb)
+                    sg = parse_sign(r.after.commit(cid)["author"])
+                    if sg:
+                        r.time = sg["time"]
+                except Exception:
+                    pass
             prev = r.after
             recs.append(r)
     finally:
